@@ -21,7 +21,7 @@ TABLE = {
 RAISING = ["sys-A", "b", "T-b-S"]       # get_data raises for these ids
 FS_ROWS = [[k, v, {"none": 0, "id": 1, "raise": 2}[r[0]], r[1] if r[0] == "id" else ""] for (k, v), r in TABLE.items()]
 
-ALPHABET = ["/", "a", "b", "pre-", "-suf", "x", "%2f", "%2F", "%41", "?q", "%00", "\0", "A", ".", "%25"]
+ALPHABET = ["/", "a", "b", "pre-", "-suf", "x", "%2f", "%2F", "%41", "?q", "%00", "\0", "A", ".", "%25", "%3f"]
 
 # request_path shapes: (request_path, placeholder or None for the default "...", needs lookup)
 SHAPES_PLAIN = ["/", "/a", "/a/b", "/a/", "a", "", "//a", "/a//b"]
